@@ -754,6 +754,8 @@ def rule_types3(ctx):
         wf = ctx.fn_by_key(k_)
         if wf is None or wf.from_macro or norm_path(wf.path).endswith('Schema::find_type_id'):
             continue
+        if wf.d.get('output', '').strip() in ('usize', 'u32', 'u64', 'u8', 'u16', 'i32', 'i64', 'isize', 'bool'):
+            continue        # a count (the capacity hint of the qualifier vector), not the qualifiers
         for n_ in walk(wf.body):
             if not (n_['k'] == 'mcall' and n_['method'] in ('take', 'skip', 'step_by', 'truncate', 'nth', 'split_off')):
                 continue
